@@ -894,7 +894,7 @@ func init() {
 		// the first fresh-instance observation per input is the pristine reference: the hostile neighbour
 		// (decoy.go) only starts after the first cases of a shard have pinned them
 		LateNeighbour: true,
-		Rule: "explicit operation histories on ONE real instance of each of 16 object kinds (an expression tokenizer under an alternating exported keyword list, a CSV tokenizer with a separator above U+00FF, an ExpressionCalculator cleared after every input with valued automatic variables, 4 tokenizers x {no options, parser options}, ExpressionParser, ExpressionCalculator, MustacheParser, MustacheTemplate, MustacheTemplate cleared after every input and rendering with one caller-owned map): every ordered pair (thorough: triple) of inputs from a pool with every registered multi-character symbol alone and next to its siblings, every token class, unterminated literals, malformed programs; " +
+		Rule: "(also: has-next patterns on a generic tokenizer whose symbols carry token types of the user's choice, an end marker among them; programs with constants next to variables in every argument position of the selecting functions) explicit operation histories on ONE real instance of each of 16 object kinds (an expression tokenizer under an alternating exported keyword list, a CSV tokenizer with a separator above U+00FF, an ExpressionCalculator cleared after every input with valued automatic variables, 4 tokenizers x {no options, parser options}, ExpressionParser, ExpressionCalculator, MustacheParser, MustacheTemplate, MustacheTemplate cleared after every input and rendering with one caller-owned map): every ordered pair (thorough: triple) of inputs from a pool with every registered multi-character symbol alone and next to its siblings, every token class, unterminated literals, malformed programs; " +
 			"after each step the full observation (tokens with positions / compiled program, variable names, error, values under two variable sets / rendering) must equal a freshly constructed instance's; plus every aborted iteration (SetReader, k fetches, abandon) followed by every input, and every pattern in {0,1,2}^m of HasNextToken queries before each fetch; the alternate entry points (ParseTokens / SetOriginalTokens on the instance's own token list, the ...FromExpression / FromTokens / FromString constructors, Clear(), the ...ToStrings tokenizer calls) must give what the main entry point gives on a fresh instance; a new instance must be unaffected after every slice/map handed out by another instance's getters was overwritten and its collections and states were cleared (and, throughout, by whatever this process did before: the fresh-instance observation per input is pinned the first time it is made); one compiled expression under every history of <=3 (thorough 5) steps out of 5 evaluation calls (default variables, two collections, an empty one, explicit functions) and 5 variable replacements (remove+add, SetValue, Clear on a supplied collection and on the defaults), every value compared with a fresh calculator whose variables went through the replacements only; non-trivial = histories of >=2 steps",
 		Assume: []string{"an outcome that is identical on the fresh instance (including a panic) is not a history effect and is left to C03"},
 		Spaces: func(tier string) []fw.Space {
